@@ -3,9 +3,12 @@ from . import common as C, chan
 
 MODULE = "AcqVerif.Props.C01"
 DRIVERS = ["acq_chan"]
-THEOREMS = []
+THEOREMS = ["AcqVerif.C01.%s" % t for t in (
+    "read_map_spec", "join_spec", "unmap_advances", "idx_unchanged_by_others", "consumed_is_stream",
+    "bounds_le_total", "status_stays_ok")] + [
+    "AcqVerif.Channel.Inv.step", "AcqVerif.Channel.Inv.run", "AcqVerif.Channel.region_bytes"]
 
 def run(ctx):
-    if THEOREMS:
-        ctx.prove(MODULE, THEOREMS)
+    ctx.prove(MODULE, THEOREMS, extra_targets=DRIVERS)
+    ctx.assumptions += chan.ASSUMPTIONS
     chan.explore(ctx, chan.C01_ORACLES)
